@@ -1,5 +1,85 @@
-/- C09 placeholder: definedness theorems are added together with Defined.lean. -/
-import BadsModel
-namespace Bads
-theorem c09_placeholder : True := trivial
-end Bads
+/-
+  C09 - Every valid problem runs to completion in every supported mode. (PARTIAL)
+
+  "No internal error anywhere in pybads' NumPy code" is not a theorem about any model one could
+  write.  Proved here: DEFINEDNESS of the rare internal paths the property names, in the
+  definedness model `Defined.lean` (and in the models of C03/C10/C16/C18 where those already carry
+  it).  Everything else is covered only as far as runs are executed (see the check).
+-/
+import BadsModel.Defined
+import BadsProofs.Props.C18
+import BadsProofs.Props.C16
+import BadsProofs.Props.C10
+
+namespace Bads.Def
+
+def isOk {α : Type} : Except Err α → Bool
+  | .ok _ => true
+  | .error _ => false
+
+/-- (a) EVERY ES CANDIDATE INFEASIBLE: whatever the number of survivors (0 included) the strategy
+    returns, and the search step is defined on what it returns. -/
+theorem es_loop_defined (n : Nat) : ∃ r, esReturn n = .ok r ∧ isOk (searchStep r) = true := by
+  unfold esReturn
+  split
+  · exact ⟨Option.none, rfl, rfl⟩
+  · exact ⟨some 0, rfl, rfl⟩
+
+/-- ... and in the ES model of C18 an empty population proposes nothing (no `us[0]` on nothing). -/
+theorem es_empty_proposes_nothing (lam : Nat) (gens : List (List Srch.Cand)) (h : gens.flatten = []) :
+    Srch.esResult lam gens = Option.none := Srch.es_empty lam gens h
+
+/-- (b) REPEATED OBSERVATION UNDER SPECIFIED NOISE: every value the logger returns is a scalar, so
+    the GP-calibration statistics and the history record are defined for every sequence of calls. -/
+theorem record_value_kind (b : RecBranch) : recordValueKind b = .pyfloat := by cases b <;> rfl
+
+theorem gp_stats_defined (bs : List RecBranch) : isOk (statsAsFloat (bs.map recordValueKind)) = true := by
+  unfold statsAsFloat
+  have : (bs.map recordValueKind).all (fun k => k == Kind.pyfloat || k == Kind.npscalar) = true := by
+    rw [List.all_eq_true]
+    intro k hk
+    obtain ⟨b, _, rfl⟩ := List.mem_map.mp hk
+    rw [record_value_kind]; rfl
+  simp [this, isOk]
+
+theorem history_record_defined (b : RecBranch) : isOk (floatOf (recordValueKind b)) = true := by
+  rw [record_value_kind]; rfl
+
+/-- (c) BUDGET AT THE EDGE OF THE INITIAL DESIGN: the training schedule is defined for every budget,
+    including `min(budget, n_train_max) = number of initial points` (0/0 before the fix). -/
+theorem train_opts_defined (nEff eff budget nTrainMax : Int) : isOk (trainOpts nEff eff budget nTrainMax) = true := by
+  unfold trainOpts schedX
+  simp only
+  split <;> rfl
+
+/-- (d) NON-FINITE GP PREDICTION AT THE INCUMBENT: the fallback value supports `.item()`. -/
+theorem target_fallback_defined (predFinite : Bool) : isOk (itemOf (targetMu predFinite)) = true := by
+  cases predFinite <;> rfl
+
+/-- (e) NOISY RUN ENDING IN ITS FIRST ITERATION: whenever the result reads `yval_vec` it has been
+    set - for every poll iteration count, 0 included. -/
+theorem result_defined (unc pollIter nfs : Nat) : isOk (buildResult unc pollIter nfs) = true := by
+  unfold buildResult yvalVecSet resultReadsYvalVec
+  cases h1 : decide (unc > 0) <;> cases h2 : decide (nfs > 0) <;> simp [isOk]
+
+/-- hedge draw and prior re-sampling are total -/
+theorem hedge_choice_defined (f : Option Nat) (fb : Nat) : isOk (hedgeChoice f fb) = true := by
+  cases f <;> rfl
+
+theorem sample_prior_defined (p : Option Unit) : isOk (samplePrior p) = true := by
+  cases p <;> rfl
+
+/-- GP REFIT RETRIES are defined (C16): shapes agree at every attempt, and a success after fewer
+    than ten consecutive failures returns. -/
+theorem refit_retries_defined (ra k : Nat) (rest : List Bool) (sh : GP.Shapes) (drops : List Nat) (hk : k < 10) (hs : sh.agree = true) :
+    (GP.robustFit 10 ra sh (List.replicate k true ++ false :: rest) drops 0).2 = true ∧
+    ∀ s ∈ (GP.robustFit 10 ra sh (List.replicate k true ++ false :: rest) drops 0).1, s.agree = true :=
+  ⟨(GP.robustFit_defined 10 ra k rest sh drops 0 (by omega)).1, GP.robustFit_shapes_agree 10 ra _ sh drops 0 hs⟩
+
+/-- A WELL-BEHAVED TARGET is never rejected by the logger (C10's `call_valid_ok`). -/
+theorem valid_call_accepted (s : Log.St) (xo x : Pt) (out : Log.Outcome) (rd : Bool) (h : out.valid s.he = true) (hinv : Log.DistinctX s) :
+    ∃ s' r, Log.call s xo x out rd = .ok (s', r) := by
+  obtain ⟨s', r, h1, _, _⟩ := Log.call_valid_ok s xo x out rd h hinv
+  exact ⟨s', r, h1⟩
+
+end Bads.Def
